@@ -64,6 +64,12 @@ def harness(c, cfg):
                 else:
                     c.prove("C14:book-shows-last-accepted-quote-of-its-own-contract[%s]" % side,
                             not _isnan(got) and bool(got is want) or got == want, info={"key": key})
+            if m["hist"]:
+                c.prove("C14:book-time=stamp-of-last-accepted-quote-or-discontinuation",
+                        book.time is not None and (m["alive"] is False or book.time == m["hist"][-1][0]))
+            for fld in ("mid_price", "bid_size", "ask_size"):
+                c.prove("C14:history-fields-in-step", len(book.history[fld]) == len(m["hist"]),
+                        info={"key": key, "field": fld, "got": len(book.history[fld]), "want": len(m["hist"])})
             hb = book.history["bid_price"]
             ha = book.history["ask_price"]
             ht = book.history["time"]
@@ -92,6 +98,9 @@ def harness(c, cfg):
                 c.prove_eq("C14:flat-at-mid", book.acq_price(0), (m["bid"] + m["ask"]) / 2)
                 c.prove_eq("C14:mid-price", book.mid_price, (m["bid"] + m["ask"]) / 2)
                 c.prove_eq("C14:spread", book.spread, m["ask"] - m["bid"])
+        nb = [n for n, (k_, _) in enumerate(cfg["seq"]) if k_ == "q"]
+        if nb:
+            c.prove("C14:exchange-last-update=stamp-of-last-quote-event", ex.last_update == T0 + timedelta(seconds=nb[-1]))
         # ---- symbol / string keys address the same book
         c.prove("C14:string-key-addresses-the-contract-book", ex["SPY"] is ex[X] and ex[F1.symbol] is ex[F1])
         # ---- vectorised accessors agree with the books
